@@ -209,6 +209,25 @@ func observe(aRoot, bRoot, archive string) (*observation, error) {
 // again meanwhile). It is independent of the session's archive.
 var synced map[string]map[string]*core.Entry
 
+// heldAtScan lists, per side and path, every entry that side held when some
+// earlier cycle scanned it. Content on one root that is identical to what the
+// other root held at an earlier scan (and has since replaced) is not a
+// modification the other root never saw: the saved state may legitimately hold
+// it (a refused transition is recorded with the target's own content) and a
+// state-based merge treats it as the older version.
+var heldAtScan map[string]map[string][]*core.Entry
+
+func noteHeld(side string, e *core.Entry, path string) {
+	x := tree.At(e, path)
+	if slim(x) == nil {
+		return
+	}
+	heldAtScan[side][path] = append(heldAtScan[side][path], slim(x))
+	for _, n := range tree.Names(x) {
+		noteHeld(side, e, tree.Join(path, n))
+	}
+}
+
 func slim(e *core.Entry) *core.Entry {
 	s := tree.Sync(e)
 	if s == nil {
@@ -283,7 +302,17 @@ func destroyedOutsideAncestor(side string, pre, post, anc *core.Entry) string {
 			return fmt.Sprintf("%s: %q = %s was deleted or overwritten by the cycle although it differs from the last-synchronized %s", side, d.Path, tree.Render(d.Entry), tree.Render(tree.At(anc, d.Path)))
 		}
 		if synced != nil {
-			if last := synced[side][d.Path]; !tree.ShallowEqual(last, d.Entry) {
+			other := "alpha"
+			if side == "alpha" {
+				other = "beta"
+			}
+			known := false
+			for _, h := range heldAtScan[other][d.Path] {
+				if tree.ShallowEqual(h, d.Entry) {
+					known = true
+				}
+			}
+			if last := synced[side][d.Path]; !tree.ShallowEqual(last, d.Entry) && !known {
 				return fmt.Sprintf("%s: %q = %s was deleted or overwritten by the cycle although both roots last agreed on %s there (the archive claims %s)", side, d.Path, tree.Render(d.Entry), tree.Render(last), tree.Render(tree.At(anc, d.Path)))
 			}
 		}
@@ -513,6 +542,7 @@ func (r *runner) runCase(p string, c *Case) (violation string, nontrivial bool, 
 	synced = nil
 	if p == "C01" || p == "C02" {
 		synced = map[string]map[string]*core.Entry{"alpha": {"": {Kind: tree.KDir}}, "beta": {"": {Kind: tree.KDir}}}
+		heldAtScan = map[string]map[string][]*core.Entry{"alpha": {}, "beta": {}}
 	}
 	for ci, edits := range c.Cycles {
 		r.mu.Lock()
@@ -606,6 +636,8 @@ func (r *runner) runCase(p string, c *Case) (violation string, nontrivial bool, 
 			nontrivial = nontrivial || nt
 		}
 		if synced != nil {
+			noteHeld("alpha", pre.a, "")
+			noteHeld("beta", pre.b, "")
 			if flushErr == nil {
 				scanAgreement(pre.a, pre.b, "")
 				propagatedFrom("alpha", pre.a, pre.db, post.b, "")
